@@ -6,6 +6,13 @@ The model functions executed here are the definitions the theorems in `MpdProofs
 -/
 open Driver
 
+/-- op prefix (text before the first `.`) → family driver; one line per family -/
+def families : List (List String × (List String → String → Verdict)) := [
+  (["tag", "sub"], Tags.handle),
+  (["proto"], Proto.handle),
+  (["frame", "resp"], Frame.handle),
+]
+
 def dispatch (line : String) : String :=
   let line := line.trimAscii.toString
   let (opPart, impl) :=
@@ -19,9 +26,9 @@ def dispatch (line : String) : String :=
     | t :: _ => (t.splitOn ".").head!
     | [] => ""
   let v : Verdict :=
-    if fam == "tag" || fam == "sub" then Tags.handle toks impl
-    else if fam == "proto" then Proto.handle toks impl
-    else bad "family"
+    match families.find? (fun f => f.1.contains fam) with
+    | some f => f.2 toks impl
+    | none => bad "family"
   v.render
 
 partial def loop (h : IO.FS.Stream) (out : IO.FS.Stream) : IO Unit := do
